@@ -31,10 +31,11 @@ TIER_OVERRIDES = {"quick": {"budget": 90.0, "workers": 16}, "thorough": {"budget
 RULE = ("per configuration (frame, partitioning, npartitions, temp-dir mode, store mode, refresh kw, "
         "retry budget) a fault-free baseline on the reference schedule fixes the fault points "
         "O_1..O_K (every SimFS call, write and close) and the reference dataset D*. Layer 1 "
-        "enumerates every (k, kind) with kind in {EIO, ENOENT, AFTER, TORN, ENOSPC, VIS, DEL, "
+        "enumerates every (k, kind) with kind in {EIO, ENOENT, AFTER, TORN, HALF, ENOSPC, VIS, DEL, "
         "STALE, CRASH} applicable to O_k; layer 2 repeats one fault r times on the same operation; layers 1 and 2 "
-        "of all configurations are run in one seeded permutation (any budget gives a uniform "
-        "sample over configurations and fault points, a long enough one the full enumeration); layer 3 "
+        "of all configurations are run in one seeded, stratified permutation (dealt round-robin from "
+        "the (configuration, layer, kind) strata: any budget reaches every kind in every "
+        "configuration, a long enough one is the full enumeration); layer 3 "
         "samples pairs/triples; layer 4 samples faults under random multi-worker schedules. A run is "
         "non-trivial when at least one fault fired; distinct = distinct (configuration, fault plan) "
         "event-log digests.")
@@ -58,7 +59,7 @@ EXPECTED_PROBES = ["retry_fired", "retry_budget_exhausted", "repeat_run_needed",
                    "crash_with_open_write", "not_yet_consistent_branch",
                    "retry_while_six_subparts_feed_one_partition"]
 
-KINDS = ("EIO", "ENOENT", "AFTER", "TORN", "ENOSPC", "VIS", "DEL", "STALE", "CRASH")
+KINDS = ("EIO", "ENOENT", "AFTER", "TORN", "HALF", "ENOSPC", "VIS", "DEL", "STALE", "CRASH")
 REF_SIM = {"workers": 1, "strategy": "inorder", "switch_p": 0.0, "stall": False}
 SHORT_RETRY = {"wait_fixed": 50, "stop_max_attempt_number": 3}
 
@@ -185,8 +186,25 @@ def _enumerated(tier, base_seed):
                                 "repeat": [[op, rel, kind, r]], "sim": REF_SIM,
                                 "seed": mix(base_seed, 7_000_000 + ci * 100000 + k * 10 + r)})
     ENUM_SIZE.update({"layer1": n1, "layer2": len(out) - n1})
-    random.Random(mix(base_seed, 424242)).shuffle(out)
-    return out
+    # stratified: shuffle inside each (configuration, layer, fault kind) stratum, then deal the
+    # strata round-robin - rare kinds (a half-done move has a handful of positions, EIO has
+    # hundreds) are all reached early, the rest of the budget goes to the large strata
+    rng = random.Random(mix(base_seed, 424242))
+    strata = {}
+    for c in out:
+        kind = c["repeat"][0][2] if c["repeat"] else next(iter(c["plan"].values()))[0]
+        strata.setdefault((id(c["cfg"]), c["layer"], kind), []).append(c)
+    groups = list(strata.values())
+    for g in groups:
+        rng.shuffle(g)
+    rng.shuffle(groups)
+    dealt = []
+    i = 0
+    while groups:
+        groups = [g for g in groups if len(g) > i]
+        dealt.extend(g[i] for g in groups)
+        i += 1
+    return dealt
 
 
 ENUM_SIZE = {}
